@@ -377,6 +377,140 @@ theorem parseQuantity_quiet_pct (vt ut : List Tok) (pct t0 : Tok) (s : BP α)
     refine Sat.bind (Sat.modify ?_)
     exact Sat.pure ⟨q2, hu⟩
 
+/-- the warning for a blank unit after `%` -/
+def emptyUnitEvs (pct : Tok) (ut : List Tok) (cs : CharSpec) : List (Ev α) :=
+  if (buildText pct.stop ut).isTextEmpty cs then
+    [.warning ⟨.warning, .parse, "empty-unit", [⟨pct.start, pct.stop⟩]⟩] else []
+
+/-- the regular quantity reader on `value % unit`, blank unit included: then the warning `empty-unit`
+    on the `%` is pushed and there is no unit -/
+theorem parseRegularQuantity_at_gen {s0 s : BP α} (vt ut : List Tok) (pct t0 : Tok)
+    (h : At (vt ++ pct :: ut) 0 s0 s) (h0 : vt.head? = some t0) (hws : isWsComment t0.kind = false)
+    (heq : t0.kind ≠ .eq) (hvp : ∀ t ∈ vt, t.kind ≠ .percent) (hp : pct.kind = .percent)
+    (hval : (∃ v, numOrRange (α := α) (s0.ext.has Gen.EXT_RANGE_VALUES) vt = some (.ok v)) ∨
+      (numOrRange (α := α) (s0.ext.has Gen.EXT_RANGE_VALUES) vt = none ∧
+        (buildText t0.start vt).isTextEmpty s0.cs = false))
+    :
+    Sat (parseRegularQuantity (α := α)) s (fun r s' => Pushed (emptyUnitEvs pct ut s0.cs) s0 s' ∧
+      r.quantity.val.unit = (if (buildText pct.stop ut).isTextEmpty s0.cs then none
+        else some (buildText pct.stop ut))) := by
+  obtain ⟨vr, rfl⟩ : ∃ vr, vt = t0 :: vr := by
+    cases vt with
+    | nil => cases h0
+    | cons a r => simp only [List.head?_cons, Option.some.injEq] at h0; subst h0; exact ⟨r, rfl⟩
+  unfold parseRegularQuantity qvalue scalingLock wsComments
+  -- leading blanks: none
+  refine Sat.bind (Sat.bind (Sat.bind (Sat.mono (consumeWhile_at isWsComment h [] (t0 :: vr ++ pct :: ut) rfl
+    (by intro t ht; cases ht) (by intro b hb; simp at hb; subst hb; exact hws)) ?_)))
+  rintro _ s1 ⟨-, h1⟩
+  simp only [List.length_nil, Nat.add_zero] at h1
+  -- no `=`
+  refine Sat.bind (Sat.atK ?_)
+  have hk : ((s1.toks[s1.cur]?).map (·.kind) == some TK.eq) = false := by
+    rw [h1.1, h1.2.1]
+    simp only [List.cons_append, List.getElem?_cons_zero, Option.map_some]
+    simpa using heq
+  rw [hk]
+  simp only [Bool.false_eq_true, if_false]
+  refine Sat.pure ?_
+  -- the value tokens
+  refine Sat.bind (Sat.mono (consumeWhile_at (fun k => k != .percent) h1 (t0 :: vr) (pct :: ut) (by simp)
+    (by intro t ht; simpa using hvp t ht) (by intro b hb; simp at hb; subst hb; simp [hp])) ?_)
+  rintro _ s2 ⟨rfl, h2⟩
+  refine Sat.bind (Sat.mono (parseValue_at h2 (t0 :: vr) t0 rfl hval) ?_)
+  rintro v s3 h3
+  refine Sat.pure ?_
+  -- the unit
+  apply Sat.bind
+  apply Sat.mono (Q := fun (u : Option (Span × Text)) s' => Same s0 s' ∧
+    u = some (⟨pct.start, pct.stop⟩, buildText pct.stop ut))
+  · refine Sat.bind (Sat.peekK ?_)
+    have hpk : (s3.toks[s3.cur]?).map (·.kind) = some TK.percent := by
+      rw [h3.1, h3.2.1]
+      simp only [Nat.zero_add]
+      rw [getElem?_mid]
+      simp [hp]
+    rw [hpk]
+    dsimp only
+    have hb : (bumpAny : P α Tok) s3 = (pct, { s3 with cur := s3.cur + 1 }) := by
+      have ht : s3.toks[s3.cur]? = some pct := by
+        rw [h3.1, h3.2.1]; simp only [Nat.zero_add]; exact getElem?_mid _ _ _
+      unfold bumpAny
+      simp only [bind, StateT.bind, nextToken_run, ht]
+      rfl
+    refine Sat.bind (Sat.of_eq hb ?_)
+    have hut : s3.toks.drop (s3.cur + 1) = ut := by
+      rw [h3.1, h3.2.1]
+      simp only [Nat.zero_add]
+      rw [List.drop_append]
+      simp
+    have hcr : (consumeRest : P α (List Tok)) ({ s3 with cur := s3.cur + 1 } : BP α) =
+        (ut, { s3 with cur := s3.cur + 1 + ut.length }) := by
+      have e : (consumeRest : P α (List Tok)) ({ s3 with cur := s3.cur + 1 } : BP α) =
+        (s3.toks.drop (s3.cur + 1), { s3 with cur := s3.cur + 1 + (s3.toks.drop (s3.cur + 1)).length }) := rfl
+      rw [e, hut]
+    refine Sat.bind (Sat.of_eq hcr ?_)
+    have h5 : At (t0 :: vr ++ pct :: ut) (s3.cur + 1 + ut.length) s0
+        ({ s3 with cur := s3.cur + 1 + ut.length } : BP α) := ⟨h3.1, rfl, h3.2.2⟩
+    refine Sat.bind (Sat.mono (bpText_at pct.stop ut h5) ?_)
+    rintro _ s6 ⟨rfl, h6⟩
+    exact Sat.pure ⟨h6.2.2, rfl⟩
+  · rintro unit s7 ⟨q7, rfl⟩
+    refine Sat.bind (Sat.get ?_)
+    dsimp only
+    rw [q7.1]
+    cases hunit : (buildText pct.stop ut).isTextEmpty s0.cs
+    · simp only [Bool.false_eq_true, if_false]
+      refine Sat.bind (Sat.get ?_)
+      refine Sat.bind (Sat.mono ((FQ.tokensSpanP _ _).sat s7) ?_)
+      rintro sp s8 q8
+      refine Sat.pure ⟨((q7.trans q8).pushed).cast ?_, rfl⟩
+      simp [emptyUnitEvs, hunit]
+    · simp only [if_true]
+      refine Sat.bind (Sat.pwarnE ?_)
+      refine Sat.bind (Sat.get ?_)
+      refine Sat.bind (Sat.mono ((FQ.tokensSpanP _ _).sat _) ?_)
+      rintro sp s8 q8
+      refine Sat.pure ⟨((q7.pushed.trans (Pushed.one _ _)).trans q8.pushed).cast ?_, rfl⟩
+      simp [emptyUnitEvs, hunit]
+
+/-- `parse_quantity` on `value % unit`, blank unit included -/
+theorem parseQuantity_pct_gen (vt ut : List Tok) (pct t0 : Tok) (s : BP α)
+    (h0 : vt.head? = some t0) (hws : isWsComment t0.kind = false)
+    (heq : t0.kind ≠ .eq) (hvp : ∀ t ∈ vt, t.kind ≠ .percent) (hp : pct.kind = .percent)
+    (hval : (∃ v, numOrRange (α := α) (s.ext.has Gen.EXT_RANGE_VALUES) vt = some (.ok v)) ∨
+      (numOrRange (α := α) (s.ext.has Gen.EXT_RANGE_VALUES) vt = none ∧
+        (buildText t0.start vt).isTextEmpty s.cs = false))
+    :
+    Sat (parseQuantity (α := α) (vt ++ pct :: ut)) s (fun r s' => Pushed (emptyUnitEvs pct ut s.cs) s s' ∧
+      r.quantity.val.unit = (if (buildText pct.stop ut).isTextEmpty s.cs then none
+        else some (buildText pct.stop ut))) := by
+  unfold parseQuantity
+  have hne : (vt ++ pct :: ut).isEmpty = false := by cases vt <;> rfl
+  simp only [hne, Bool.false_eq_true, if_false]
+  refine Sat.bind (Sat.get ?_)
+  refine Sat.bind (Sat.set ?_)
+  have hat : At (vt ++ pct :: ut) 0 s ({ s with toks := vt ++ pct :: ut, cur := 0 } : BP α) :=
+    by unfold At Same; exact ⟨rfl, rfl, rfl, rfl, rfl⟩
+  apply Sat.bind
+  apply Sat.mono (Q := fun (r : Option (ParsedQuantity α)) s' => r = none ∧ At (vt ++ pct :: ut) 0 s s')
+  · refine Sat.bind (Sat.hasExt ?_)
+    split
+    · apply withRecover_sat
+      unfold parseAdvancedQuantity
+      refine Sat.bind (Sat.allToks ?_)
+      have hany : (vt ++ pct :: ut).any (fun t => t.kind == .percent) = true := by
+        simp [hp]
+      simp only [hany, if_true]
+      exact Sat.pure ⟨trivial, hat⟩
+    · exact Sat.pure ⟨rfl, hat⟩
+  · rintro adv s1 ⟨rfl, h1⟩
+    dsimp only
+    refine Sat.bind (Sat.mono (parseRegularQuantity_at_gen vt ut pct t0 h1 h0 hws heq hvp hp hval) ?_)
+    rintro r s2 ⟨q2, hu⟩
+    refine Sat.bind (Sat.modify ?_)
+    exact Sat.pure ⟨q2, hu⟩
+
 /-! ### a bare numeric quantity `{n}` is read quietly, without unit, under every extension set -/
 
 theorem scalingLock_at {qt : List Tok} {s0 s : BP α} (t0 : Tok) (tl : List Tok) (hqt : qt = t0 :: tl)
